@@ -16,6 +16,12 @@ Session `catalog` (C12).  Lines:
        `st=none|fwscan|nbest|timsort|stable|optimal|other` (sort_type; answered by the composed C12∘C07 model)
   form: `v E` | `p a b` | `l E*` | `t E*` (tuple, length ≠ 2) | `d <or|and|xor|none> (v E | p a b | l E* | t E* | nq)`
   E: `3` | `3..5` | `..5` | `3..` | `..`   (facet indexes: facet tokens `1:2`, no ranges)
+     `N` = Python's `None` as a query value: under a field index `(None, None)` reaches `_fwd_index.values`, i.e.
+     both ends open (every document with a value); as the bare argument of a keyword/facet index it is not
+     iterable (TypeError), like `Z` = the int `0` handed to a keyword/facet index
+* `recheck` – the (num, ids) pairs handed out by earlier searches are re-read: results are values, later
+  catalog traffic cannot change them (`stable`); `clobber` – the caller empties a result it was handed (`ok`):
+  nothing in the catalog changes
 -/
 namespace Driver.CatalogS
 open Hyp Hyp.Legacy Hyp.Catalog
@@ -152,12 +158,18 @@ def obs (st : St) (name : String) : String :=
 def bound? (s : String) : Option (Option Int) := if s = "" then some none else s.toInt?.map some
 
 def elemInt? (tok : String) : Option (Elem Int) :=
+  if tok = "N" then some (.range none none) else
   match tok.splitOn ".." with
   | [v] => v.toInt?.map .val
   | [lo, hi] => do let lo ← bound? lo; let hi ← bound? hi; pure (.range lo hi)
   | _ => none
 
-def elemFacet? (tok : String) : Option (Elem Facet.Facet) := (facet? tok).map .val
+def elemFacet? (tok : String) : Option (Elem Facet.Facet) :=
+  if tok = "N" || tok = "Z" then some (.range none none) else (facet? tok).map .val
+
+/-- element of a keyword-index query: a keyword number, a range, `N` (None) or `Z` (int 0: not iterable) -/
+def elemKw? (tok : String) : Option (Elem Int) :=
+  if tok = "Z" then some (.range none none) else elemInt? tok
 
 def shape? {α : Type} (elem? : String → Option (Elem α)) : List String → Option (Shape α)
   | ["v", e] => (elem? e).map .bare
@@ -190,7 +202,11 @@ def term? (c : Cat Doc) : List String → Option (String × QArg)
     let isFacet : Bool := match get c name with
       | some e => e.ix.kind == .facet
       | none => false
+    let isKw : Bool := match get c name with
+      | some e => e.ix.kind == .keyword
+      | none => false
     if isFacet then (lq? elemFacet? form).map (fun q => (name, .fac q))
+    else if isKw then (lq? elemKw? form).map (fun q => (name, .int q))
     else match lq? elemInt? form with
       | some q => some (name, .int q)
       | none => (lq? elemFacet? form).map (fun q => (name, .fac q))
@@ -363,6 +379,8 @@ def step (st : St) (toks : List String) : St × String :=
     | some e => (st, f e.nameAttr ++ " ## " ++ f (some n))
     | none => (st, "err KeyError ## err KeyError")
   | ["obs", n] => (st, obs st n)
+  | ["recheck"] => (st, "stable")
+  | ["clobber"] => (st, "ok")
   | cmd :: rest =>
     match splitAll ";" rest with
     | [] => (st, "bad-op")
